@@ -319,6 +319,7 @@ func readIndex(s string) map[string]*roaring64.Bitmap {
 // ---------------------------------------------------------------- the real index build
 
 const indexModName = "idx"
+const indexMod2Name = "idx2"
 const filteredModName = "filtered"
 
 func marshalKeys(keys []string) []byte {
@@ -330,6 +331,7 @@ func marshalKeys(keys []string) []byte {
 }
 
 type builtIndex struct {
+	polluted string                            // non-empty: the index file of a second module built by the same job is wrong
 	indices map[string]*roaring64.Bitmap       // as loaded from the index file
 	buffers map[uint64]execout.ExecutionOutput // per block, with the index module's output when it has one
 }
@@ -366,6 +368,23 @@ func buildRealIndex(its []item, lo, hi uint64, faults string) *builtIndex {
 	wfile := idxCfgs.ConfigMap[indexModName].NewFile(rng)
 	writers := map[string]*execout.Writer{indexModName: execout.NewWriter(lo, hi, indexModName, execCfgs, true)}
 	idxWriters := map[string]*index.Writer{indexModName: index.NewWriter(wfile)}
+	// a second block-index module built by the same job (same key names, on other blocks): each module's index file
+	// must hold that module's keys only
+	mod2 := &pbsubstreams.Module{Name: indexMod2Name, Kind: mod.Kind}
+	if _, err := hashes.HashModule(nil, mod2, nil); err != nil {
+		panic(err)
+	}
+	execCfgs2, err := execout.NewConfigs(base, []*pbsubstreams.Module{mod2}, hashes, interval, 0, logger)
+	if err != nil {
+		panic(err)
+	}
+	idxCfgs2, err := index.NewConfigs(base, []*pbsubstreams.Module{mod2}, hashes, 0, logger)
+	if err != nil {
+		panic(err)
+	}
+	writers[indexMod2Name] = execout.NewWriter(lo, hi, indexMod2Name, execCfgs2, true)
+	idxWriters[indexMod2Name] = index.NewWriter(idxCfgs2.ConfigMap[indexMod2Name].NewFile(rng))
+	want2 := map[string][]uint64{}
 	eng, err := cache.NewEngine(ctx, writers, "sf.test.Block", map[string]*execout.File{}, idxWriters)
 	if err != nil {
 		panic(err)
@@ -387,6 +406,20 @@ func buildRealIndex(its []item, lo, hi uint64, faults string) *builtIndex {
 		if err := buf.SetFileOutput(indexModName, payload); err != nil {
 			panic(err)
 		}
+		// the second module says of block b what the first says of the NEXT item (same key names, other blocks)
+		keys2 := its[(seen[it.blk]+int(it.blk))%len(its)].keys
+		if seen[it.blk] == 1 {
+			for _, k := range keys2 {
+				want2[k] = append(want2[k], it.blk)
+			}
+			p2 := marshalKeys(keys2)
+			if err := buf.Set(indexMod2Name, p2); err != nil {
+				panic(err)
+			}
+			if err := buf.SetFileOutput(indexMod2Name, p2); err != nil {
+				panic(err)
+			}
+		}
 		if err := eng.HandleFinal(clock); err != nil {
 			panic(err)
 		}
@@ -401,7 +434,29 @@ func buildRealIndex(its []item, lo, hi uint64, faults string) *builtIndex {
 		panic(fmt.Errorf("loading the index file just written: %w", err))
 	}
 	res.indices = rfile.Indices
+	// the second module's file: its own keys, nothing of the first module's
+	rfile2 := idxCfgs2.ConfigMap[indexMod2Name].NewFile(rng)
+	if err := rfile2.Load(ctx); err != nil {
+		panic(fmt.Errorf("loading the second index file just written: %w", err))
+	}
+	for k := range want2 {
+		sort.Slice(want2[k], func(i, j int) bool { return want2[k][i] < want2[k][j] })
+		want2[k] = dedupU64(want2[k])
+	}
+	if len(want2) > 0 && !sameSnapshot(rfile2.Indices, want2) {
+		res.polluted = fmt.Sprintf("second index module: file holds %v, its own outputs were %v", snapshot(rfile2.Indices), want2)
+	}
 	return res
+}
+
+func dedupU64(l []uint64) []uint64 {
+	var out []uint64
+	for i, v := range l {
+		if i == 0 || v != l[i-1] {
+			out = append(out, v)
+		}
+	}
+	return out
 }
 
 func snapshot(m map[string]*roaring64.Bitmap) map[string][]uint64 {
@@ -636,6 +691,9 @@ func runEval(line string, w []string) {
 		out.Case(line, "index-build-failed "+ans, false)
 		out.Fail("C15/index-build", "building, saving or loading the index failed", line)
 		return
+	}
+	if bi.polluted != "" {
+		out.Fail("C15/index-file-holds-another-modules-keys", bi.polluted, line)
 	}
 	bm, stable := applyBitmaps(expr, bi.indices)
 	ksPanic := false
